@@ -105,7 +105,7 @@ ChildResult run_in_child(const Plan &plan, const std::string &only_oracle, int t
     int fd = open(errfile.c_str(), O_WRONLY | O_CREAT | O_TRUNC, 0644);
     if (fd >= 0) { dup2(fd, 2); close(fd); }
     g_phase_slot = slot;
-    alarm((unsigned)timeout_s);
+    arm_guard(30, timeout_s);
     Outcome o = exec_plan(plan, false, only_oracle);
     std::string line = o.to_line() + "\n";
     ssize_t w = write(pfd[1], line.data(), line.size()); (void)w;
@@ -119,7 +119,7 @@ ChildResult run_in_child(const Plan &plan, const std::string &only_oracle, int t
   waitpid(pid, &st, 0);
   r.status = st; r.phase = *slot;
   munmap(slot, sizeof(int));
-  if (WIFSIGNALED(st) && WTERMSIG(st) == SIGALRM) { r.timed_out = true; r.crashed = true; }
+  if (WIFEXITED(st) && (WEXITSTATUS(st) == 99 || WEXITSTATUS(st) == 98)) { r.timed_out = true; r.crashed = true; }
   else if (!(WIFEXITED(st) && WEXITSTATUS(st) == 0) || buf.empty()) r.crashed = true;
   if (!r.crashed) r.out = Outcome::from_line(buf.substr(0, buf.find('\n')));
   else {
@@ -142,7 +142,7 @@ Verdict verdict_of(const ChildResult &c, const std::string &focus) {
     v.bad = !p.empty() && p == focus;
     v.prop = p;
     v.oracle = std::string(c.timed_out ? "hang:" : "crash:") + phase_name(c.phase) + (c.site.empty() || c.timed_out ? "" : "@" + c.site);
-    v.msg = c.timed_out ? "no result within the wall-clock limit" : c.err;
+    v.msg = c.timed_out ? "the library made no progress (no hook point passed, no return) for 30 s, or the run exceeded its wall-clock limit: it is in a loop" : c.err;
     v.hash = hash_str(v.oracle);
     if (p.empty()) { v.prop = "infrastructure"; }
   } else {
@@ -162,7 +162,7 @@ struct Shrinker {
   bool reproduces(const Plan &p) {
     if (evals >= max_evals || now_s() - t_start > max_seconds) return false;
     evals++;
-    ChildResult c = run_in_child(p, oracle.rfind("crash:", 0) == 0 || oracle.rfind("hang:", 0) == 0 ? "" : oracle, oracle.rfind("hang:", 0) == 0 ? 20 : 60, errfile);
+    ChildResult c = run_in_child(p, oracle.rfind("crash:", 0) == 0 || oracle.rfind("hang:", 0) == 0 ? "" : oracle, 60, errfile);
     Verdict v = verdict_of(c, p.prop);
     return v.bad && v.oracle == oracle;
   }
@@ -304,6 +304,7 @@ int replay_main(const std::string &path, bool quiet) {
     close(pfd[0]);
     g_phase_slot = slot;
     if (quiet) { int fd = open(errfile.c_str(), O_WRONLY | O_CREAT | O_TRUNC, 0644); if (fd >= 0) { dup2(fd, 2); close(fd); } }
+    arm_guard(30, 900);
     Outcome o = exec_plan(p, !quiet);
     std::string line = o.to_line() + "\n";
     ssize_t w = write(pfd[1], line.data(), line.size()); (void)w;
@@ -318,6 +319,7 @@ int replay_main(const std::string &path, bool quiet) {
   munmap(slot, sizeof(int));
   if (!(WIFEXITED(st) && WEXITSTATUS(st) == 0) || buf.empty()) {
     c.crashed = true;
+    if (WIFEXITED(st) && (WEXITSTATUS(st) == 99 || WEXITSTATUS(st) == 98)) c.timed_out = true;
     if (quiet) { try { std::string e = read_file(errfile); c.err = crash_headline(e); c.site = crash_site(e); } catch (...) {} }
   } else c.out = Outcome::from_line(buf.substr(0, buf.find('\n')));
   unlink(errfile.c_str());
@@ -343,12 +345,14 @@ static void worker_main(const Config &cfg, int k, long long first_run, int wfd, 
   if (efd >= 0) { dup2(efd, 2); close(efd); }
   g_phase_slot = &slot->phase;
   const bool fresh_per_run = cfg.prop == "C18";
+  if (!fresh_per_run) arm_guard(30, 600);
   auto send = [&](const std::string &s) { size_t off = 0; while (off < s.size()) { ssize_t w = write(wfd, s.data() + off, s.size() - off); if (w <= 0) _exit(3); off += (size_t)w; } };
   for (long long run = first_run; run < cfg.runs; run += cfg.workers) {
     if (now_s() > deadline) break;
     for (long long sub = 0;; sub++) {
       slot->run = run; slot->sub = sub; slot->phase = PH_GEN; slot->started_ms = (long long)(now_s() * 1000);
       if (ftruncate(2, 0) == 0) lseek(2, 0, SEEK_SET);
+      run_started();
       Plan p = gen_plan(cfg.prop, cfg.seed, run, sub, cfg.tier);
       Outcome o;
       if (fresh_per_run) {
@@ -358,6 +362,7 @@ static void worker_main(const Config &cfg, int k, long long first_run, int wfd, 
         pid_t pid = fork();
         if (pid == 0) {
           close(pfd[0]);
+          arm_guard(30, 600);
           Outcome oc = exec_plan(p, false);
           std::string l = oc.to_line() + "\nH " + g_hll_states.hex() + "\n";
           size_t off = 0;
@@ -371,7 +376,8 @@ static void worker_main(const Config &cfg, int k, long long first_run, int wfd, 
         int st = 0; waitpid(pid, &st, 0);
         if (!(WIFEXITED(st) && WEXITSTATUS(st) == 0) || buf.empty()) {
           std::string werr; try { werr = read_file(errpath); } catch (...) {}
-          send("X " + std::to_string(run) + " " + std::to_string(sub) + " " + std::to_string((int)slot->phase) + " " + crash_site(werr) + "\n");
+          bool stalled = WIFEXITED(st) && (WEXITSTATUS(st) == 99 || WEXITSTATUS(st) == 98);
+          send("X " + std::to_string(run) + " " + std::to_string(sub) + " " + std::to_string((int)slot->phase) + " " + (stalled ? std::string("stalled") : crash_site(werr)) + "\n");
           break;
         }
         o = Outcome::from_line(buf.substr(0, buf.find('\n')));
@@ -465,7 +471,7 @@ int check_main(Config cfg) {
       std::string p = crash_property(ph, cfg.prop);
       if (p == cfg.prop) {
         std::string cls = std::string("crash:") + phase_name(ph) + "@" + site;
-        if (cand_per_class[cls]++ < 2) cands.push_back({run, sub, true, ph, Outcome()});
+        if (cand_per_class[cls]++ < 2) { Candidate c{run, sub, true, ph, Outcome()}; c.hang = std::string(site) == "stalled"; cands.push_back(c); }
         stats.inc("crash:" + std::string(phase_name(ph)));
       } else if (p.empty()) { infra_errors++; fprintf(stderr, "[check] run %lld died outside a library phase (%s)\n", run, phase_name(ph)); }
       else { foreign_crashes++; stats.inc(std::string("foreign_crash:") + p + ":" + phase_name(ph)); }
@@ -497,7 +503,7 @@ int check_main(Config cfg) {
           int st = 0; waitpid(w.pid, &st, 0);
           if (!w.done) {
             long long run = slots[k].run, sub = slots[k].sub; int ph = slots[k].phase;
-            bool hang = WIFSIGNALED(st) && WTERMSIG(st) == SIGKILL;
+            bool hang = (WIFSIGNALED(st) && WTERMSIG(st) == SIGKILL) || (WIFEXITED(st) && (WEXITSTATUS(st) == 99 || WEXITSTATUS(st) == 98));
             std::string p = crash_property(ph, cfg.prop);
             std::string werr;
             try { werr = read_file(cfg.logs + "/" + cfg.prop + ".w" + std::to_string(k) + ".err"); } catch (...) {}
@@ -544,9 +550,9 @@ int check_main(Config cfg) {
     if ((int)reported_classes.size() >= cfg.max_report) break;
     Plan p = gen_plan(cfg.prop, cfg.seed, c.run, c.sub, cfg.tier);
     // gate: twice in fresh processes, same class and same event-log hash
-    ChildResult r1 = run_in_child(p, "", c.hang ? 120 : 300, errfile);
+    ChildResult r1 = run_in_child(p, "", 300, errfile);
     Verdict v1 = verdict_of(r1, cfg.prop);
-    ChildResult r2 = run_in_child(p, "", c.hang ? 120 : 300, errfile);
+    ChildResult r2 = run_in_child(p, "", 300, errfile);
     Verdict v2 = verdict_of(r2, cfg.prop);
     if (!v1.bad || !v2.bad || v1.oracle != v2.oracle || v1.hash != v2.hash) {
       fprintf(stderr, "[check] candidate run %lld sub %lld did not reproduce identically in fresh processes (%d/%d, %s vs %s): engine error\n", c.run, c.sub, v1.bad, v2.bad, v1.oracle.c_str(), v2.oracle.c_str());
